@@ -295,6 +295,10 @@ type txPlan struct {
 	H     refe4.Header
 	Body  []byte
 	Gap   time.Duration // pause before this transmission
+	// Contend (library end is the host): the application sends at that moment and the peer, the
+	// master, answers the library's ENQ with an ENQ of its own — the block then reaches the library
+	// while it is yielding, not on the idle line
+	Contend bool
 }
 
 type inbound struct {
@@ -305,6 +309,8 @@ type inbound struct {
 	next    int
 	started bool
 	done    bool
+	contend *txPlan // the block the peer will send when the library's next ENQ arrives
+	appSeq  int
 }
 
 func buildInbound() core.BuildFunc {
@@ -413,7 +419,25 @@ func buildInbound() core.BuildFunc {
 			hd := refe4.Header{Device: device, R: toLibR, Stream: 1, Func: 1, Num: 1, E: true, Sys: 1}
 			h.plan = append(h.plan, txPlan{Kind: "valid", H: hd, Valid: true, Raw: refe4.Wire(hd, nil), Gap: time.Millisecond})
 		}
+		if !equip {
+			for i := range h.plan {
+				if h.plan[i].Gap < h.t4/2 && t.Choose("scn", 4) == 0 {
+					h.plan[i].Contend = true
+				}
+			}
+		}
 		h.setup(w, active, equip, device, h.t4)
+		h.p.Grant = func() bool {
+			if h.contend == nil {
+				return true
+			}
+			pp := *h.contend
+			h.contend = nil
+			w.Probe("block_sent_into_a_contention_yield")
+			h.transmitPlanned(pp)
+
+			return false
+		}
 		w.AddMonitor(func() {
 			if h.started || !h.r.Selected() || !h.peerUp {
 				return
@@ -437,6 +461,13 @@ func buildInbound() core.BuildFunc {
 	}
 }
 
+func (h *inbound) transmitPlanned(p txPlan) {
+	h.p.SendBlock(p.Raw, nil, nil, func(res refe4.TxResult) {
+		h.results = append(h.results, res)
+		h.sendNext()
+	})
+}
+
 func (h *inbound) sendNext() {
 	if h.next >= len(h.plan) {
 		h.w.After(50*time.Millisecond, "inbound-done", func() { h.done = true })
@@ -445,6 +476,27 @@ func (h *inbound) sendNext() {
 	}
 	p := h.plan[h.next]
 	h.next++
+	if p.Contend && !h.equip {
+		w := h.w
+		w.After(p.Gap, "contend", func() {
+			pp := p
+			h.contend = &pp
+			h.appSeq++
+			n := h.appSeq
+			w.Go(fmt.Sprintf("app-send%d", n), func() {
+				_, _ = h.r.C.SendDataMessage(context.Background(), 1, 3, false, secs2.A(fmt.Sprintf("out%d", n)))
+			})
+			// if the library's ENQ never shows up, send the block on the idle line after all
+			w.After(t2, "contend-fallback", func() {
+				if h.contend == &pp {
+					h.contend = nil
+					h.transmitPlanned(pp)
+				}
+			})
+		})
+
+		return
+	}
 	h.w.After(p.Gap, "peer-send-block", func() {
 		h.p.SendBlock(p.Raw, nil, nil, func(res refe4.TxResult) {
 			h.results = append(h.results, res)
